@@ -22,13 +22,15 @@ Theorem C05_crash_anywhere : forall persistent n l,
 Proof. exact log_ok_prefix. Qed.
 
 (* value items: whatever a subscriber saw before the crash had been handed to the store, and the item comes
-   back with that value or one handed over later - never something older *)
+   back with that value or one handed over later - never something older (the second alternative: what it saw
+   was the default state, never stored, which nothing restored can be older than) *)
 Theorem C05_restart_never_older_value : forall persistent l n r i x,
   log_ok persistent l = true -> persistent i = true -> no_delete i l ->
   In (LSentV r i x) (firstn n l) ->
-  exists before after,
-    puts i (firstn n l) = before ++ x :: after /\
-    restored_value (replay (firstn n l)) i = last (x :: after) 0%Z.
+  (exists before after,
+     puts i (firstn n l) = before ++ x :: after /\
+     restored_value (replay (firstn n l)) i = last (x :: after) 0%Z)
+  \/ x = 0%Z.
 Proof. exact restart_never_older_value. Qed.
 
 (* map items: every operation a subscriber saw is among those handed over before the crash, and the map
